@@ -147,66 +147,66 @@ Record varassign : Type := mk_varassign {
   va_split : split_result          (* *splitResult after the call *)
 }.
 
+(* matchVarassign after the decision whether the line is a commented assignment:
+   sr is *splitResult at that point (re-split from text[1:] when commented) *)
+Definition match_varassign_tail (commented : bool) (text : str) (sr : split_result)
+    : res (option varassign) :=
+  toks <- tokenize (sr_main sr) ;;
+  let lexer0 := tl_new toks in
+  let main_start := lexer0 in
+  let lexer1 := if commented then lexer0 else tl_lift skip_spaces lexer0 in
+  let rest1 := tl_rest lexer1 in
+  '(vname, mkrest) <- Varname rest1 ;;
+  lexer2 <- tl_skip_mixed (S (length rest1))
+              (Z.of_nat (length rest1) - Z.of_nat (length mkrest))%Z lexer1 ;;
+  match vname with
+  | [] => Ok None
+  | _ =>
+    let '(space_after_varname, cur3) := next_bytes is_hspace (fst lexer2) in
+    let lexer3 : tlexer := (cur3, snd lexer2) in
+    let op_start := lexer3 in
+    let cur4 := match cur3 with
+                | c :: t => if (c =? 33) || (c =? 43) || (c =? 58) || (c =? 63) then t else cur3
+                | [] => cur3
+                end in
+    match skip_byte 61 cur4 with
+    | None => Ok None
+    | Some cur5 =>
+      let lexer5 : tlexer := (cur5, snd lexer2) in
+      let op0 := tl_since op_start lexer5 in
+      (* NewMkOperator panics on anything else *)
+      if negb (existsb (str_eqb op0) [[61]; [33; 61]; [58; 61]; [43; 61]; [63; 61]]) then Panic
+      else
+        let '(vname', op) :=
+          if has_suffix [43] vname && str_eqb op0 [61] && negb (nonempty space_after_varname)
+          then (firstn (length vname - 1) vname, [43; 61])
+          else (vname, op0) in
+        let lexer6 := tl_lift (fun s => snd (next_bytes is_hspace s)) lexer5 in
+        let value := trim_hspace (tl_rest lexer6) in
+        let parsed_value_align := (if commented then [35] else []) ++ tl_since main_start lexer6 in
+        align <- get_raw_value_align text parsed_value_align ;;
+        let '(align', sr') :=
+          match value with
+          | [] => (align ++ sr_space_before_comment sr,
+                   mk_split (sr_main sr) [] (sr_has_comment sr) (sr_comment sr))
+          | _ => (align, sr)
+          end in
+        Ok (Some (mk_varassign commented vname' space_after_varname op value align' sr'))
+    end
+  end.
+
 (* matchVarassign(line, text, &splitResult) for line.raw[0].Orig() = text;
    `first` is what Parse computed before: split(text, true) *)
 Definition match_varassign (text : str) (first : split_result) : res (option varassign) :=
   let commented := negb (nonempty (sr_main first)) && sr_has_comment first && has_prefix [35] text in
-  let start :=
-    if commented then
-      let '(hs, crest) := next_bytes is_hspace (sr_comment first) in
-      if nonempty hs || negb (nonempty crest) then Ok None
-      else
-        t1 <- skip 1 text ;;                           (* text[1:] *)
-        sr <- split t1 true ;; Ok (Some sr)
-    else Ok (Some first) in
-  so <- start ;;
-  match so with
-  | None => Ok None
-  | Some sr =>
-    toks <- tokenize (sr_main sr) ;;
-    let lexer0 := tl_new toks in
-    let main_start := lexer0 in
-    let lexer1 := if commented then lexer0 else tl_lift skip_spaces lexer0 in
-    let rest1 := tl_rest lexer1 in
-    '(vname, mkrest) <- Varname rest1 ;;
-    lexer2 <- tl_skip_mixed (S (length rest1))
-                (Z.of_nat (length rest1) - Z.of_nat (length mkrest))%Z lexer1 ;;
-    match vname with
-    | [] => Ok None
-    | _ =>
-      let '(space_after_varname, cur3) := next_bytes is_hspace (fst lexer2) in
-      let lexer3 : tlexer := (cur3, snd lexer2) in
-      let op_start := lexer3 in
-      let cur4 := match cur3 with
-                  | c :: t => if (c =? 33) || (c =? 43) || (c =? 58) || (c =? 63) then t else cur3
-                  | [] => cur3
-                  end in
-      match skip_byte 61 cur4 with
-      | None => Ok None
-      | Some cur5 =>
-        let lexer5 : tlexer := (cur5, snd lexer2) in
-        let op0 := tl_since op_start lexer5 in
-        (* NewMkOperator panics on anything else *)
-        if negb (existsb (str_eqb op0) [[61]; [33; 61]; [58; 61]; [43; 61]; [63; 61]]) then Panic
-        else
-          let '(vname', op) :=
-            if has_suffix [43] vname && str_eqb op0 [61] && negb (nonempty space_after_varname)
-            then (firstn (length vname - 1) vname, [43; 61])
-            else (vname, op0) in
-          let lexer6 := tl_lift (fun s => snd (next_bytes is_hspace s)) lexer5 in
-          let value := trim_hspace (tl_rest lexer6) in
-          let parsed_value_align := (if commented then [35] else []) ++ tl_since main_start lexer6 in
-          align <- get_raw_value_align text parsed_value_align ;;
-          let '(align', sr') :=
-            match value with
-            | [] => (align ++ sr_space_before_comment sr,
-                     mk_split (sr_main sr) [] (sr_has_comment sr) (sr_comment sr))
-            | _ => (align, sr)
-            end in
-          Ok (Some (mk_varassign commented vname' space_after_varname op value align' sr'))
-      end
-    end
-  end.
+  if commented then
+    let '(hs, crest) := next_bytes is_hspace (sr_comment first) in
+    if nonempty hs || negb (nonempty crest) then Ok None
+    else
+      t1 <- skip 1 text ;;                             (* text[1:] *)
+      sr <- split t1 true ;;
+      match_varassign_tail true text sr
+  else match_varassign_tail false text first.
 
 (* what MkLineParser.Parse does for a line that does not start with a tab, up
    to matchVarassign *)
